@@ -1093,7 +1093,7 @@ class Duration(AnyAtomicType):
             msg = 'argument has an invalid type {!r}'
             raise TypeError(msg.format(type(text)))
 
-        match = cls.pattern.match(text.strip())
+        match = cls.pattern.match(text.strip(' \t\n\r'))
         if match is None:
             raise ValueError('%r is not an xs:duration value' % text)
 
